@@ -94,6 +94,9 @@ Section Machine.
   (** The user force-closes, or the ChannelManager closes on load because it is stale w.r.t. the
       monitor: the monitor broadcasts its current holder commitment. *)
   | OForceClose
+  (** The funding output was spent on chain by a transaction this node did not sign (the peer's
+      commitment, a cooperative close): the channel is gone, nothing is signed. *)
+  | OChainClose
   (** The monitor signs its current holder commitment again (re-broadcast, reload). *)
   | OResign.
 
@@ -235,6 +238,9 @@ Section Machine.
             | Some (s1, raa_evs) => reest_commit s1 raa_evs nl
             end
     | OForceClose => close s []
+    | OChainClose =>
+        (mkSt (holder_next s) (cp_next s) (awaiting_rr s) (disconnected s) (mon_in_progress s)
+              (mp_raa s) (mp_cs s) (raa_first s) (cp_cur_point s) (cp_next_point s) true, [])
     | OResign => (s, [])
     end.
 
@@ -340,4 +346,5 @@ Arguments OMonitorDone {secret point}.
 Arguments ODisconnect {secret point}.
 Arguments ORecvReest {secret point} next_local next_remote sec.
 Arguments OForceClose {secret point}.
+Arguments OChainClose {secret point}.
 Arguments OResign {secret point}.
